@@ -2554,6 +2554,15 @@ func nop(n *node) {
 func branch(n *node) {
 	tnext := getExec(n.tnext)
 	fnext := getExec(n.fnext)
+	if b, ok := constBool(n); ok {
+		// The condition is a constant.
+		if b {
+			n.exec = func(f *frame) bltn { return tnext }
+		} else {
+			n.exec = func(f *frame) bltn { return fnext }
+		}
+		return
+	}
 	value := genValue(n)
 
 	n.exec = func(f *frame) bltn {
